@@ -9,7 +9,7 @@ W=/tmp/trial-wt-$N-$P
 git -C /repo worktree remove --force $W >/dev/null 2>&1
 git -C /repo worktree add -q --detach $W HEAD || exit 3
 git -C $W apply $S/patch.diff || exit 3
-VERIF_REPO=$W VERIF_NO_EVIDENCE=1 /verif/check $P --no-replay "$@" > /var/tmp/trial_${N}_$P.log 2>&1
+VERIF_REPO=$W VERIF_NO_EVIDENCE=1 /verif/check $P ${REPLAY:+} $( [ -z "$REPLAY" ] && echo --no-replay ) "$@" > /var/tmp/trial_${N}_$P.log 2>&1
 rc=$?
 git -C /repo worktree remove --force $W
 echo "$N $P rc=$rc $(grep -c '^VIOLATION' /var/tmp/trial_${N}_$P.log) violations; $(grep -h 'failed:' /var/tmp/trial_${N}_$P.log | head -2 | cut -c1-150 | tr '\n' '|')"
